@@ -520,6 +520,7 @@ def main(run):
     _full_terms_stream(run, rng, thorough)
     _sequence_stream(run, rng, thorough)
     _left_handed_stream(run, rng, thorough)
+    _error_path_stream(run, rng, thorough)
     _glist_observations(run, rng, thorough)
 
     out = common.lean_run_driver("C08", lines)
@@ -705,6 +706,103 @@ def _glist_observations(run, rng, thorough):
                 "no-op fails beyond the stated precision (Lean: minGRad_insufficient, g_list_complete; proposed_fixes/c08-glist-index-radius.*)",
         "cases": obs,
     }
+
+
+def _error_path_stream(run, rng, thorough):
+    """Error paths on ONE Phonopy object: valid NAC parameters A -> query -> an INVALID assignment that raises (wrong
+    number of Born tensors, missing keys, wrong shapes) -> query.  The second query must either raise or obey the limits
+    for the parameters the object reports (`ph.nac_params`); it must never answer with the correction of the superseded A."""
+    from phonopy.structure.symmetry import symmetrize_borns_and_epsilon
+
+    names = ["nacl_prim", "zincblende_prim", "cscl", "triclinic", "wurtzite"]
+    for c in range(6 if thorough else 2):
+        name = names[(c + run.seed) % len(names)]
+        cell, cen = _cell(name)
+        S = np.diag([2, 1, 1])
+        variant = "omp" if c % 2 == 0 else "ser"
+        common.switch_variant(variant)
+        ph = gen.make_phonopy(cell, S, pmat="P")
+        prim = ph.primitive
+        npa = len(prim)
+        ph.force_constants = U.pair_fc(ph.supercell, 0.8 * gen.min_lattice_vector(ph.supercell.cell))
+        rec = np.linalg.inv(prim.cell)
+        n = np.array([rng.randint(-8, 8) / 4.0 + 0.15 for _ in range(3)])
+        if not _margin_ok(rec, np.zeros(3), n):
+            continue
+        plain_g = _run_dm(ph, np.zeros(3))
+        q_c = np.array([0.5, 0.0, 0.0])
+        plain_c = _run_dm(ph, q_c)
+        sc = max(1.0, float(np.abs(plain_g).max()), float(np.abs(plain_c).max()))
+
+        def good():
+            b, e = U.random_born_eps(rng, npa)
+            b = b - b.mean(axis=0)
+            Z, E = symmetrize_borns_and_epsilon(b, e, prim)
+            return Z, E
+
+        for method in ("wang", "gonze"):
+            ZA, EA = good()
+            ZB, EB = good()
+            fA = rng.choice([14.4, 2.0])
+            A = {"born": ZA, "dielectric": EA, "factor": fA, "method": method}
+            bad_kinds = [
+                ("wrong-born-count", {"born": np.concatenate([ZB] * 4)[: npa + 6], "dielectric": EB, "factor": fA, "method": method}),
+                ("missing-factor", {"born": ZB, "dielectric": EB, "method": method}),
+                ("missing-dielectric", {"born": ZB, "factor": fA, "method": method}),
+                ("born-wrong-shape", {"born": ZB[:, :, :2], "dielectric": EB, "factor": fA, "method": method}),
+            ]
+            for kind, B in bad_kinds:
+                info = dict(cell=name, smat=S.tolist(), variant=variant, method=method, invalid_assignment=kind, direction=n.tolist(),
+                            born_A=ZA.tolist(), dielectric_A=EA.tolist(), factor_A=fA,
+                            invalid_params={k: (np.asarray(v).tolist() if k in ("born", "dielectric") else v) for k, v in B.items()})
+                run.case(("error-path", name, method, kind, ZA.tobytes(), ZB.tobytes()), nontrivial=True)
+                run.count("error-path sequences (%s)" % method, section="oracle")
+                ph.nac_params = dict(A)
+                dA = _run_dm(ph, np.zeros(3), n)
+                predA = _closed_form(prim, np.array(ph.dynamical_matrix.born), np.array(ph.dynamical_matrix.dielectric_constant), _phys_factor(prim, fA), n)
+                scd = max(sc, float(np.abs(predA).max()))
+                if not U.close(dA - plain_g, predA, TOL, scd):
+                    run.violation("Phonopy.run_qpoints(nac_q_direction)", "gamma-limit-%s" % method, "closed form fails before the error path (%.3g)" % U.maxdiff(dA - plain_g, predA), info)
+                raised = None
+                try:
+                    ph.nac_params = B
+                except Exception as e:
+                    raised = type(e).__name__
+                if raised is None:
+                    run.count("invalid assignment %s accepted without exception" % kind)
+                else:
+                    run.count("invalid assignment %s raises %s" % (kind, raised))
+                # the query after the failed assignment
+                try:
+                    dq = _run_dm(ph, np.zeros(3), n)
+                    dc = _run_dm(ph, q_c)
+                except Exception as e:
+                    run.count("query after the failed assignment raises %s" % type(e).__name__)
+                    ph.nac_params = None
+                    continue
+                rep = ph.nac_params
+                run.count("query after the failed assignment answers")
+                corr = dq - plain_g
+                problems = []
+                rep_born = None if rep is None else np.asarray(rep.get("born"))
+                reports_A = rep is not None and rep_born is not None and rep_born.shape == ZA.shape and np.array_equal(rep_born, ZA)
+                if rep is None:
+                    if not U.close(corr, 0 * corr, TOL, scd):
+                        problems.append("object reports no NAC parameters but the zone-centre matrix carries a correction of %.3g" % float(np.abs(corr).max()))
+                elif not reports_A and float(np.abs(predA).max()) > 1e-6 * scd and U.close(corr, predA, 1e-6, scd):
+                    problems.append("object reports the new parameters (%s) but the zone-centre matrix carries the correction of the superseded ones "
+                                    "(|correction - closed form of A| = %.3g, |closed form of A| = %.3g)" % (kind, U.maxdiff(corr, predA), float(np.abs(predA).max())))
+                elif rep_born is not None and rep_born.shape == ZA.shape and np.asarray(rep.get("dielectric", np.zeros(1))).shape == (3, 3) and "factor" in rep:
+                    Zr, Er = symmetrize_borns_and_epsilon(rep_born, np.asarray(rep["dielectric"]), prim)
+                    predR = _closed_form(prim, Zr, Er, _phys_factor(prim, rep["factor"]), n)
+                    if not U.close(corr, predR, TOL, max(scd, float(np.abs(predR).max()))):
+                        problems.append("zone-centre correction differs from the closed form of the REPORTED parameters by %.3g" % U.maxdiff(corr, predR))
+                if not U.close(dc, plain_c, TOL if method == "wang" else 1e-3, scd):
+                    problems.append("commensurate no-op off by %.3g" % U.maxdiff(dc, plain_c))
+                if problems:
+                    run.violation("Phonopy.nac_params setter (error path)", "stale-after-failed-assignment-%s" % method, "; ".join(problems), info)
+                ph.nac_params = None
+    common.switch_variant("omp")
 
 
 def _left_handed_stream(run, rng, thorough):
